@@ -516,6 +516,55 @@ pub fn run(tier: Tier) -> Report {
         }
         rep.extra("not_coded_tail_sequences", json!(n_tail));
     }
+    // standard-mode streams that mix header kinds (all sub-QCIF, so the format value never changes):
+    // a PLUSPTYPE picture - with and without unrestricted vectors switched on - followed by
+    // plain-PTYPE pictures and the other way round, predicted pictures with vectors of every code
+    // length in their last macroblocks, every padding length through the PEI count
+    {
+        let plus = |inter: bool, tr: u8, umv: bool, pei: usize| -> Hdr {
+            let mut h = StdHdr::custom(128, 96, inter, tr, 6);
+            {
+                let pl = h.plus.as_mut().unwrap();
+                pl.opp.srcfmt = 1;
+                if umv {
+                    pl.opp.modes |= 0x200;
+                    pl.uui = 1;
+                }
+            }
+            h.pei = (0..pei).map(|k| (0x21 * (k + 1)) as u8 ^ tr).collect();
+            Hdr::Std(h)
+        };
+        let plain = |inter: bool, tr: u8, pei: usize| -> Hdr {
+            let mut h = StdHdr::baseline(1, inter, tr, 6);
+            h.pei = (0..pei).map(|k| (0x13 * (k + 1)) as u8 ^ tr).collect();
+            Hdr::Std(h)
+        };
+        let letter = |hd: Hdr, salt: usize| -> Letter {
+            let mut mbs = body(&hd, 0, salt);
+            if hd.pic_type() != PicType::I {
+                // the last three macroblocks carry vectors whose code words have different lengths
+                let n = mbs.len();
+                for (k, d) in [(2i8, 0i8), (-5, 3), (1, -12)].iter().enumerate() {
+                    mbs[n - 3 + k] = Mb::Coded { kind: Kind::Inter, dquant: 0, mvd: vec![(d.0 + salt as i8 % 3, d.1)], blocks: Default::default() };
+                }
+            }
+            let pic = Pic { mbs, hdr: hd };
+            let bw = encode(&pic);
+            let pad = (8 - bw.nbits % 8) % 8;
+            Letter { name: format!("{} pad{}", describe(&pic).chars().take(60).collect::<String>(), pad), bytes: bw.bytes, pad, pic }
+        };
+        let mut seqs: Vec<Vec<Letter>> = vec![];
+        for pei in 0..8usize {
+            for umv in [true, false] {
+                seqs.push(vec![letter(plus(false, 0, umv, pei), pei), letter(plain(true, 1, pei), pei), letter(plain(true, 2, (pei + 3) % 8), pei + 1), letter(plain(false, 3, pei), pei)]);
+                seqs.push(vec![letter(plain(false, 0, pei), pei), letter(plus(true, 1, umv, pei), pei), letter(plain(true, 2, pei), pei + 1), letter(plus(true, 3, umv, (pei + 5) % 8), pei)]);
+            }
+        }
+        let calls: u64 = seqs.par_iter().map(|sq| run_seq(&rep, Mode::StdBaseline, None, &sq.iter().collect::<Vec<_>>())).sum();
+        rep.add_transitions(calls);
+        rep.add_states(seqs.len() as u64);
+        rep.extra("mixed_header_kind_sequences", json!(seqs.len()));
+    }
     // scale: one-row and one-column pictures of every lattice dimension (powers of two and their
     // neighbours, 3*2^k, primes, the largest values a 16-bit size field can carry), I, P, I in one reader
     {
@@ -545,7 +594,7 @@ pub fn run(tier: Tier) -> Report {
         rep.violation("C15/machinery-padding-coverage", format!("picture alphabet does not realise every padding length 0..7: {pads:?}"), json!({"kind": "machinery"}));
     }
     rep.set_rule(&format!(
-        "all sequences of 1..={maxlen} pictures (thorough: also of four pictures over every second letter) from an alphabet of type {{I,P,D}} x 8 PEI counts (every padding length 0..7) x bodies (last macroblock coded with AC data / not coded / with MCBPC stuffing codewords) per size, from a fresh decoder and after an I picture, in Sorenson and standard mode: decoder A reads the concatenation from one reader, decoder B gets one reader per picture; A, B and the reference decoder must agree after every call and A's reader must end within 8 bits of the end; plus pictures ending in each kind of final syntax element (every TCOEF form incl. each escape width, INTRADC, COD, each MVD shape, after DQUANT, position 63) at every padding length 0..7, alone / before / after another picture; standard-mode pictures that stop early before the next start code (whenever their own reader accepts them the shared reader must too, with the same picture, and the next picture decodes); 80-macroblock pictures ending in every number of not-coded macroblocks, followed by another picture; I, P, I sequences of one-row and one-column pictures for every dimension of the lattice (powers of two and neighbours, 3*2^k, primes, 65520, 65521, 65534, 65535); non-trivial = sequences of two or more pictures"
+        "all sequences of 1..={maxlen} pictures (thorough: also of four pictures over every second letter) from an alphabet of type {{I,P,D}} x 8 PEI counts (every padding length 0..7) x bodies (last macroblock coded with AC data / not coded / with MCBPC stuffing codewords) per size, from a fresh decoder and after an I picture, in Sorenson and standard mode: decoder A reads the concatenation from one reader, decoder B gets one reader per picture; A, B and the reference decoder must agree after every call and A's reader must end within 8 bits of the end; plus pictures ending in each kind of final syntax element (every TCOEF form incl. each escape width, INTRADC, COD, each MVD shape, after DQUANT, position 63) at every padding length 0..7, alone / before / after another picture; standard-mode pictures that stop early before the next start code (whenever their own reader accepts them the shared reader must too, with the same picture, and the next picture decodes); 80-macroblock pictures ending in every number of not-coded macroblocks, followed by another picture; standard-mode sequences mixing PLUSPTYPE pictures (with and without unrestricted vectors) and plain-PTYPE pictures at every padding length; I, P, I sequences of one-row and one-column pictures for every dimension of the lattice (powers of two and neighbours, 3*2^k, primes, 65520, 65521, 65534, 65535); non-trivial = sequences of two or more pictures"
     ));
     rep.assume("pictures of one sequence share a size (prediction across sizes is outside the valid-stream premise)");
     rep
